@@ -53,6 +53,10 @@ pub struct Ctx {
     pub distinct: BTreeMap<String, HashSet<u64>>,
     pub samples: Vec<Value>,
     pub violations: Vec<Violation>,
+    /// index into the known-findings list -> number of cases of this run that it explains
+    pub known: BTreeMap<usize, u64>,
+    /// every violation key of the run, kept only when MC_DUMP_KEYS is set (used to author known-finding key files)
+    pub all_keys: Vec<String>,
     pub notes: Vec<String>,
     trace: Option<File>,
 }
@@ -87,8 +91,15 @@ impl Ctx {
         }
     }
     pub fn violation(&mut self, key: impl Into<String>, what: impl Into<String>, replay: Value) {
-        self.count("violations_raw", 1);
         let key = key.into();
+        if dump_keys_path().is_some() {
+            self.all_keys.push(key.clone());
+        }
+        if let Some(i) = findings().iter().position(|f| finding_matches(f, current_property(), &key)) {
+            *self.known.entry(i).or_insert(0) += 1;
+            return;
+        }
+        self.count("violations_raw", 1);
         let same = self.violations.iter().filter(|v| v.key == key).count();
         if same < MAX_PER_KEY && self.violations.len() < MAX_VIOLATIONS_KEPT {
             self.violations.push(Violation {
@@ -132,6 +143,10 @@ impl Ctx {
             }
         }
         self.notes.extend(o.notes);
+        self.all_keys.extend(o.all_keys);
+        for (k, v) in o.known {
+            *self.known.entry(k).or_insert(0) += v;
+        }
     }
 }
 
@@ -160,9 +175,30 @@ pub trait Check: Sync {
 #[derive(Clone, Debug)]
 pub struct Finding {
     pub property: String,
+    /// exact class key, or a prefix when it ends in `*`
     pub key: String,
+    /// optional explicit list of class keys (one per line in a committed file under /verif)
+    pub key_set: Option<HashSet<String>>,
     pub status: String,
     pub what: String,
+}
+
+static FINDINGS: std::sync::OnceLock<Vec<Finding>> = std::sync::OnceLock::new();
+static PROPERTY: std::sync::OnceLock<String> = std::sync::OnceLock::new();
+
+pub fn dump_keys_path() -> Option<&'static String> {
+    static P: std::sync::OnceLock<Option<String>> = std::sync::OnceLock::new();
+    P.get_or_init(|| std::env::var("MC_DUMP_KEYS").ok()).as_ref()
+}
+
+pub fn findings() -> &'static Vec<Finding> {
+    FINDINGS.get_or_init(load_findings)
+}
+pub fn set_current_property(id: &str) {
+    let _ = PROPERTY.set(id.to_string());
+}
+pub fn current_property() -> &'static str {
+    PROPERTY.get().map(|s| s.as_str()).unwrap_or("")
 }
 
 pub fn load_findings() -> Vec<Finding> {
@@ -178,6 +214,15 @@ pub fn load_findings() -> Vec<Finding> {
                 .map(|f| Finding {
                     property: f["property"].as_str().unwrap_or("").to_string(),
                     key: f["key"].as_str().unwrap_or("").to_string(),
+                    key_set: f["key_file"].as_str().map(|rel| {
+                        let path = Path::new(VERIF_DIR).join(rel);
+                        fs::read_to_string(&path)
+                            .unwrap_or_else(|e| die(&format!("known finding key file {path:?}: {e}")))
+                            .lines()
+                            .map(|l| l.trim().to_string())
+                            .filter(|l| !l.is_empty())
+                            .collect()
+                    }),
                     status: f["status"].as_str().unwrap_or("").to_string(),
                     what: f["what"].as_str().unwrap_or("").to_string(),
                 })
@@ -190,10 +235,14 @@ fn finding_matches(f: &Finding, property: &str, key: &str) -> bool {
     if f.property != property || f.status != "open" {
         return false;
     }
-    if let Some(prefix) = f.key.strip_suffix('*') {
+    let key_ok = if let Some(prefix) = f.key.strip_suffix('*') {
         key.starts_with(prefix)
     } else {
         f.key == key
+    };
+    match &f.key_set {
+        Some(set) => key_ok && set.contains(key),
+        None => key_ok,
     }
 }
 
@@ -319,6 +368,7 @@ fn scratch_dir(id: &str) -> PathBuf {
 }
 
 pub fn run_check(check: &dyn Check, args: &Args) -> i32 {
+    set_current_property(check.id());
     if let Some(path) = &args.replay {
         let s = fs::read_to_string(path).unwrap_or_else(|e| die(&format!("cannot read {path:?}: {e}")));
         let v: Value = serde_json::from_str(&s).unwrap_or_else(|e| die(&format!("bad replay file: {e}")));
@@ -403,8 +453,17 @@ fn child_main(check: &dyn Check, args: &Args) -> i32 {
 /// Applies known findings, writes replay files and evidence, prints the verdict lines.
 fn finish(check: &dyn Check, args: &Args, total: Ctx, wall: f64) -> i32 {
     let id = check.id();
-    let findings = load_findings();
+    if let Some(p) = dump_keys_path() {
+        let mut keys = total.all_keys.clone();
+        keys.sort();
+        keys.dedup();
+        fs::write(p, keys.join("\n") + "\n").expect("dump keys");
+    }
     let mut known_hit: BTreeMap<String, (String, u64)> = BTreeMap::new();
+    for (i, n) in &total.known {
+        let f = &findings()[*i];
+        known_hit.insert(f.key.clone(), (f.what.clone(), *n));
+    }
     let mut real: Vec<&Violation> = Vec::new();
     let mut sorted: Vec<&Violation> = total.violations.iter().collect();
     // simplest (shortest) case of every class first
@@ -413,11 +472,7 @@ fn finish(check: &dyn Check, args: &Args, total: Ctx, wall: f64) -> i32 {
         (v.key.clone(), body.len(), body)
     });
     for v in sorted {
-        if let Some(f) = findings.iter().find(|f| finding_matches(f, id, &v.key)) {
-            known_hit.entry(f.key.clone()).or_insert((f.what.clone(), 0)).1 += 1;
-        } else {
-            real.push(v);
-        }
+        real.push(v);
     }
     for (key, (what, n)) in &known_hit {
         println!("KNOWN-FINDING: property={id} {what} [key={key}; {n} case(s) in this run]");
